@@ -114,3 +114,58 @@ func VerifC09Write() {
 	}
 	rt.Reach("end")
 }
+
+// c09Chunks serves a fixed list of chunks, one per Read (each at most the pump's buffer size).
+type c09Chunks struct {
+	chunks [][]byte
+	i      int
+}
+
+func (r *c09Chunks) Read(p []byte) (int, error) {
+	if r.i >= len(r.chunks) {
+		return 0, io.EOF
+	}
+	n := copy(p, r.chunks[r.i])
+	r.i++
+	return n, nil
+}
+func (r *c09Chunks) Write(p []byte) (int, error) { return len(p), nil }
+func (r *c09Chunks) Close() error                { return nil }
+
+// VerifC09LargeReads: a reader that lags (several chunks are queued) and reads with large buffers — at,
+// above and well above the connection's chunk size — gets every byte the peer wrote, in order, unless a
+// Read reported io.ErrShortBuffer.
+func VerifC09LargeReads() {
+	sizes := []int{1500, 600, connPktSize}
+	var src c09Chunks
+	var all []byte
+	nch := 2 + rt.Choose("chunks", 2)
+	for i := 0; i < nch; i++ {
+		sz := sizes[rt.Choose("chunkSize", len(sizes))]
+		ch := rt.Bytes("chunk", sz, sz)
+		src.chunks = append(src.chunks, ch)
+		all = append(all, ch...)
+	}
+	c := &Conn{ctx: context.Background(), rwc: &src, packetCh: make(chan []byte, 16)}
+	perr := c.rxPump()
+	rt.Assert("pump ends with EOF", perr == io.EOF)
+	bl := []int{connPktSize, connPktSize + 952, 2 * connPktSize}[rt.Choose("buflen", 3)]
+	var out []byte
+	short := false
+	for k := 0; k < 2*nch+2; k++ {
+		b := make([]byte, bl)
+		n, err := c.Read(b)
+		out = append(out, b[:n]...)
+		if err == io.ErrShortBuffer {
+			short = true
+			continue
+		}
+		if err != nil {
+			rt.Assert("the stream ends with io.EOF", err == io.EOF && n == 0)
+			break
+		}
+	}
+	rt.Assert("no short buffer with buffers of at least the chunk size", !short)
+	rt.Assert("every byte the peer wrote is read, in order", len(out) == len(all) && rt.BytesEq(out, all))
+	rt.Reach("end")
+}
